@@ -697,3 +697,45 @@ def r03_11(ctx):
                  rp.Config(levy="davie", tol=F(1, 1000), halfway=True)]
     _report(ctx, "R03.11", call, per_config(model, ctx.tier, "_cfg_r03_11", cfgs))
     ctx.floor("R03.11", 3)
+
+
+# ------------------------------------------------------------------------------------------------ R03.12 (resolved times)
+def r03_12(ctx):
+    """With a tolerance a query is a query of its *resolved* end points: the increment returned for raw times (a, b) is the
+    increment of (q(a), q(b)) -- zero exactly when the two coincide, and the increment of the grid interval otherwise,
+    however short b - a is.  By replay, plain and dyadic tree, after a short history; raw times on both sides of cell
+    boundaries, closer together than a cell, and further apart.  (W only: U is scaled with the raw length, observation
+    (xiii).)"""
+    rep, model = ctx.rep, ctx.model
+    rep.rule("R03.12", "replay with a tolerance: the increment returned for raw query times is the increment of the resolved "
+                       "(quantised) end points -- zero iff they coincide")
+    call = _call_fi(model)
+    rep.analysed(call)
+    if skipped(ctx, "R03.12", call):
+        return
+    tol = F(1, 10)
+    raws = [(F(4, 100), F(6, 100)), (F(6, 100), F(14, 100)), (F(12, 100), F(38, 100)), (F(26, 100), F(34, 100)),
+            (F(31, 100), F(33, 100)), (F(44, 100), F(76, 100)), (F(55, 100), F(65, 100))]
+    hist = [(F(0), F(1, 2)), (F(1, 2), F(1))]
+    for cfg in (rp.Config(tol=tol), rp.Config(tol=tol, halfway=True), rp.Config(tol=tol, levy="none", cache_size=F(0))):
+        use_U = cfg.levy != "none"
+        bad = []
+        for a, b in raws:
+            qa, qb = F(round(a, 1)), F(round(b, 1))
+            o1, _, _ = _run(model, cfg, hist + [(a, b)], use_U)
+            o2, _, _ = _run(model, cfg, hist + [(qa, qb)], use_U)
+            if isinstance(o1, SimRaise) or isinstance(o2, SimRaise):
+                e = o1 if isinstance(o1, SimRaise) else o2
+                bad.append(f"the query ({a}, {b}) raises {e.exc_name}: {e.message}")
+                continue
+            w1 = o1[-1][0] if isinstance(o1[-1], tuple) else o1[-1]
+            w2 = o2[-1][0] if isinstance(o2[-1], tuple) else o2[-1]
+            if not nf.equal(Rat.lift(w1), Rat.lift(w2)):
+                bad.append(f"W({a}, {b}) = `{str(w1)[:80]}` but the resolved end points are ({qa}, {qb}), whose increment is "
+                           f"`{str(w2)[:80]}`")
+            if qa == qb and not nf.equal(Rat.lift(w1), Rat.const(0)):
+                bad.append(f"W({a}, {b}) is not zero although both end points resolve to {qa}")
+        rep.check(not bad, "R03.12", astq.loc(call), f"{call.key}::R03.12::{cfg.label()}",
+                  f"BrownianInterval({cfg.label()}): {bad[0] if bad else ''} ({len(bad)} of {len(raws)} raw queries): values at "
+                  f"resolved times are not additive, and in dyadic mode they depend on the history", "increment of the resolved interval")
+    ctx.floor("R03.12", 3)
